@@ -155,7 +155,7 @@ func runQuery(file string, timeoutS int, needAgree int, only []string) SolveResu
 func runQueryRace(file string, timeoutS int, needAgree int, only []string) SolveResult {
 	type one struct {
 		name, status, out string
-		ms           int64
+		ms                int64
 	}
 	ctx, cancel := context.WithCancel(context.Background())
 	defer cancel()
